@@ -71,7 +71,10 @@ class AsyncComparison(Condition):
             )
 
     def __on_changed__(self):
-        if self._test():
+        # A comparison nobody waits for has nobody to notify. Not evaluating it
+        # also keeps abandoned comparisons, which linger until they are garbage
+        # collected, from having an effect that depends on when that happens.
+        if self._waiting and self._test():
             self.__trigger__()
 
     def __str__(self):
